@@ -1,6 +1,7 @@
 import ScenicModel.Props.C18Int
 import ScenicModel.Gen.IntCodec
 import ScenicModel.Props.C18Replay
+import ScenicModel.Props.C18Sample
 
 /-!
 # C18 — property theorems, instantiated on the data regenerated from /repo
@@ -39,5 +40,23 @@ theorem bytes_truncation_refused (v bs p q : Bytes)
     (hw : writeBytes intTable v = some bs) (hpq : bs = p ++ q) (hq : q ≠ []) :
     readBytes intTable p = none :=
   Codec.bytes_truncation_refused intTable gen_table_wf v bs p q hw hpq hq
+
+/-- whole-sample round trip for every scenario graph, with the integer codec of the current source -/
+theorem sample_roundtrip (c : Sample.Ctx) (ht : c.t = intTable) (hD : Sample.DAG c.g)
+    (vals : Nat → Sample.Val) (hCons : Sample.Consistent c vals) (roots : List Nat)
+    (hroots : ∀ r ∈ roots, r < c.g.length) (enc : Bytes)
+    (hw : Sample.writeSample c vals roots = some enc) (s : Bytes) :
+    ∃ env, Sample.readSample c roots (enc ++ s) = some (env, s) ∧
+      (∀ j v, env.lookup j = some v → v = vals j) ∧
+      (∀ r ∈ roots, Sample.lookupD c env r = vals r) :=
+  Sample.sample_roundtrip c (ht ▸ gen_table_wf) hD vals hCons roots hroots enc hw s
+
+/-- every strict prefix of a sample encoding is refused -/
+theorem sample_truncation_refused (c : Sample.Ctx) (ht : c.t = intTable) (hD : Sample.DAG c.g)
+    (vals : Nat → Sample.Val) (hCons : Sample.Consistent c vals) (roots : List Nat)
+    (hroots : ∀ r ∈ roots, r < c.g.length) (enc : Bytes)
+    (hw : Sample.writeSample c vals roots = some enc) (p q : Bytes) (hpq : enc = p ++ q)
+    (hq : q ≠ []) : Sample.readSample c roots p = none :=
+  Sample.sample_truncation_refused c (ht ▸ gen_table_wf) hD vals hCons roots hroots enc hw p q hpq hq
 
 end Scenic.C18
